@@ -32,13 +32,15 @@ THEOREMS = [
     "HedVerif.C04.empty_groups_counterexample",
     "HedVerif.Dup.canon_eq_of_skey",
     "HedVerif.C04.shortClean_adm",
-    # growth: the whole validator (Model/Validate.lean)
+    # growth: the whole validator (Model/Validate.lean), every rule, both values of allow_placeholders
+    "HedVerif.C04.construct_starts_nodup",
     "HedVerif.C04.spacing_invariant_text",
-    "HedVerif.C04.spacing_invariant_full_partial",
-    "HedVerif.C04.order_invariant_full_partial",
-    "HedVerif.C04.spelling_invariant_full_partial",
-    "HedVerif.C04.rewrite_printed_invariant_partial",
-    "HedVerif.C04.rewrite_invariant_partial",
+    "HedVerif.C04.spacing_invariant_full",
+    "HedVerif.C04.order_invariant_full",
+    "HedVerif.C04.spelling_invariant_full",
+    "HedVerif.C04.rewrite_printed_invariant",
+    "HedVerif.C04.rewrite_invariant",
+    "HedVerif.C04.rewrite_invariant_text",
     "HedVerif.C04.dup_rule_is_dup_model",
     "HedVerif.Rewrite.validate_sim",
     "HedVerif.Rewrite.validateP_sim",
@@ -46,6 +48,9 @@ THEOREMS = [
     "HedVerif.Rewrite.construct_ev",
     "HedVerif.Rewrite.textIssues_blankRel",
     "HedVerif.Rewrite.textIssues_render",
+    "HedVerif.Rewrite.individualPhase_struct",
+    "HedVerif.Rewrite.onsetIssues_sim",
+    "HedVerif.Rewrite.defItemsOK_of_defPhase",
     "HedVerif.Rewrite.mkTagW_core",
     "HedVerif.C04.textOK_ab",
 ]
